@@ -174,7 +174,7 @@ const classCut = "zero-cycle-cut-invalid-path"
 
 // sampleCap bounds the number of times a routine is re-run on a query whose
 // answer depends on the uncontrolled random choice.
-const sampleCap = 20000
+var sampleCap = 20000 // 12000 in the quick tier (the defect showed within 8465 calls on every flagged query)
 
 // cutQueries runs, for every query (s,t) for which the model in cutmodel.go
 // finds a sequence of random choices leading to an invalid answer, the real
@@ -276,6 +276,7 @@ func (c *ctx) cutQueries() int {
 // 4-node digraph over {absent,0,1}.
 func genZeroCut(g *vlib.G) {
 	thorough := g.Thorough()
+	sampleCap = vlib.Pick(g, 12000, 20000)
 	one := func(t *vlib.T, r *ref, idx int) {
 		if len(r.zero) == 0 {
 			t.Outcome("no zero-weight cycle")
